@@ -141,6 +141,10 @@ func c16Row(r *core.Rng, depth int) []any {
 		return row
 	}
 	row := []any{randCase(r, c16Labels[r.Intn(5)])}
+	if r.Chance(1, 10) {
+		// first elements that merely begin like a label
+		row[0] = []string{"Conditions", "CONDITIONAL", "condition:", "conditionconditioncondition", "ANDROMEDA", "ORacle", "NOTE", "LISTING", "BASICS", "Conditio"}[r.Intn(10)]
+	}
 	width := r.Range(0, 5)
 	if r.Chance(1, 12) {
 		width = r.Range(15, 40) // a wide row
@@ -150,7 +154,11 @@ func c16Row(r *core.Rng, depth int) []any {
 	}
 	for i, n := 0, width; i < n; i++ {
 		if depth > 0 && r.Chance(2, 5) {
-			row = append(row, c16Row(r, depth-1))
+			sub := c16Row(r, depth-1)
+			row = append(row, sub)
+			if r.Chance(1, 6) {
+				row = append(row, sub) // the very same row instance a second time (acyclic all the same)
+			}
 		} else {
 			row = append(row, c16Scalar(r))
 		}
